@@ -151,9 +151,91 @@ def check_syntax_case(case, st):
                 st.violation('json-not-one-document:%s' % kind, {'lines': lines, 'stdout': res.stdout[:300]})
 
 
+# ---- the failing target written in each documented form (the forms only matter on the error paths, which format host and port)
+FORMS = {
+    '[v6]:port': lambda i: ('[2001:db8::%d]:2222' % (i + 1), '2001:db8::%d' % (i + 1), 2222),
+    '[v6]': lambda i: ('[2001:db8::%d]' % (i + 1), '2001:db8::%d' % (i + 1), 22),
+    'v6': lambda i: ('2001:db8::%d' % (i + 1), '2001:db8::%d' % (i + 1), 22),
+    'v4:port': lambda i: ('10.7.%d.1:2222' % i, '10.7.%d.1' % i, 2222),
+    'v4': lambda i: ('10.7.%d.1' % i, '10.7.%d.1' % i, 22),
+    'name:port': lambda i: ('named%d.example:2222' % i, 'named%d.example' % i, 2222),
+}
+
+
+def form_cases():
+    out = []
+    for f in FAILING:
+        for form in FORMS:
+            if f == 'UNRESOLVABLE' and not form.startswith('name'):
+                continue
+            for pos in (0, 1):
+                for fmt in ('text', 'json'):
+                    out.append(('form', f, form, pos, fmt))
+    # a port outside 1-65535 inside a bracketed target: an error for that target only
+    for form_line in ('[2001:db8::1]:70000', '[2001:db8::1]:0'):
+        for pos in (0, 1):
+            for fmt in ('text', 'json'):
+                out.append(('form', 'BADPORT', form_line, pos, fmt))
+    return out
+
+
+def check_form_case(case, st):
+    import socket as _s
+    from mc import runner, vnet
+    _t, f, form, pos, fmt = case
+    servers, resolver, faults = {}, {}, {}
+    if f == 'BADPORT':
+        line, exp_bad = form, None
+    else:
+        line, host, port = FORMS[form](pos)
+        exp_bad = MT.run_single(f, pos, 'text', None, via_targets_file=False).status
+        if f == 'UNRESOLVABLE':
+            resolver[host] = _s.gaierror(-2, 'Name or service not known')
+        else:
+            srv = MT.ALL[f]('bad')
+            faults.update({('bad',) + k[1:]: v for k, v in getattr(MT.ALL[f]('bad'), '_planned', {}).items()})
+            ip = host if not host.startswith('named') else '10.8.%d.1' % pos
+            if host.startswith('named'):
+                resolver[host] = [(int(_s.AF_INET), ip)]
+            servers[(ip, port)] = srv
+    good_host = MT.host_label(1 - pos)
+    servers[('10.0.%d.1' % (1 - pos), 22)] = MT.ALL['CLEAN'](good_host)
+    resolver[good_host] = [(int(_s.AF_INET), '10.0.%d.1' % (1 - pos))]
+    lines = [good_host]
+    lines.insert(pos, line)
+    w = vnet.World(servers=servers, resolver=resolver, faults=faults)
+    res = runner.run_cli(['-n', '--skip-rate-test'] + (['-j'] if fmt == 'json' else []) + ['-T', MT.targets_file(lines), '--threads', '2'], w)
+    st.execution(res.world, outcome=('form', res.status, fmt), root=case, nontrivial=case)
+    d = {'targets': lines, 'archetype': f, 'fmt': fmt, 'status': res.status, 'stdout_tail': res.stdout[-400:], 'stderr_tail': res.stderr[-300:]}
+    tag = '%s:%s' % (f if f in ('BADPORT', 'UNRESOLVABLE') else 'failing-target', form if f != 'BADPORT' else 'bracketed')
+    if res.hang or res.exc:
+        st.violation('target-form:hang-or-escaped-exception:%s' % tag, dict(d, hang=res.hang, exc=res.exc))
+        return
+    good = MT.run_single('CLEAN', 1 - pos, 'text', None, via_targets_file=False).status
+    if exp_bad is not None:
+        exp = max((exp_bad, good), key=lambda x: RANK.get(x, 4))
+        if res.status != exp:
+            st.violation('target-form:exit-status:%s' % tag, dict(d, expected=exp))
+    elif res.status in (0, 2, 3) or res.status not in (1, 255):
+        st.violation('target-form:exit-status:%s' % tag, dict(d, expected='1 or 255'))
+    if 'aes256-gcm@openssh.com' not in res.stdout:
+        st.violation('target-form:healthy-target-lost-report:%s' % tag, d)
+    if fmt == 'json':
+        try:
+            doc = json.loads(res.stdout)
+            if not isinstance(doc, list) or len(doc) != 2:
+                st.violation('target-form:json-array-length:%s' % tag, d)
+        except ValueError:
+            st.violation('target-form:json-not-one-document:%s' % tag, d)
+    elif len(MT.split_text(res.stdout)) != 2:
+        st.violation('target-form:block-count:%s' % tag, d)
+
+
 def work(chunk, st):
     for case in chunk:
-        if len(case) == 3:
+        if case[0] == 'form':
+            check_form_case(case, st)
+        elif len(case) == 3:
             check_syntax_case(case, st)
         else:
             explore_case(case, st)
@@ -193,6 +275,7 @@ def cases(tier):
             for th in (1, 2):
                 out.append(((a,), th, fmt, 0, conn, None))
     out += syntax_cases()
+    out += form_cases()
     return out
 
 
@@ -221,7 +304,7 @@ def run(tier, seed):
         PID, tier, seed, st, t0,
         rule='target lists of length 2 (quick; plus one triple per failure) / 2-3 (thorough) mixing healthy archetypes %s with every failure '
              'archetype %s in every position x threads x {text,-j}; DFS over gate schedules (preemption bound quick 1 / thorough 2); plus '
-             'targets-file syntax failures (out-of-range port, blank/whitespace lines); non-trivial = distinct (list, threads, format, completion order)' % (HEALTHY, FAILING),
+             'targets-file syntax failures (out-of-range port, blank/whitespace lines); every failing archetype written as [v6]:port, [v6], v6, v4:port, v4, name:port next to a healthy target; non-trivial = distinct (list, threads, format, completion order)' % (HEALTHY, FAILING),
         assumptions=['thread switches only at virtual I/O gates', 'per-target statuses come from fresh single-target runs in the same environment'],
         exhaustive=True, traces_validated=validated, extra={'cases': len(cs)})
 
